@@ -38,6 +38,7 @@ EXPECT = {
     "93feb3f": ("D10 ortho bend below the node", ["C06"]),
     "f8d4449": ("D7 crossing counter 64-bit mask", ["C12"]),
     "6384e56": ("Triangulate overlap", ["C19"]),
+    "00807a7": ("point on a triangulation diagonal located by a rounding-sensitive collinearity test", ["C19"]),
     "fb299aa": ("Shortest: end points on diagonals", ["C19"]),
     "2b00c71": ("FitSpline containment hole", ["C20"]),
     "e4dc109": ("spline corridor: tails of both layers", ["C01"]),
